@@ -329,7 +329,7 @@ fn run_sequence(ctx: &mut Ctx, seq: &[u8], rng: &mut Rng, key: &HMACKey) {
 
 pub fn run(ctx: &mut Ctx) {
     let key = HMACKey::new_short_term(PASSWORD).expect("short-term key");
-    let exhaustive_len: u32 = if ctx.quick() { 7 } else { 8 };
+    let exhaustive_len: u32 = if ctx.quick() { 7 } else { 9 };
     let total = count_upto(exhaustive_len);
     ctx.cases("sequences", total, |ctx, case, rng| {
         let seq = seq_from_index(case);
@@ -341,8 +341,8 @@ pub fn run(ctx: &mut Ctx) {
         ctx.only.is_none(),
     );
     // beyond the exhaustive bound: seeded sample of longer sequences
-    let (lo, hi) = if ctx.quick() { (8u64, 10u64) } else { (9, 13) };
-    let n = ctx.n(8_000, 120_000);
+    let (lo, hi) = if ctx.quick() { (8u64, 10u64) } else { (10, 14) };
+    let n = ctx.n(8_000, 400_000);
     ctx.cases("long-sequences", n, |ctx, _case, rng| {
         let len = rng.range(lo, hi) as usize;
         // bias towards the interesting kinds
